@@ -527,6 +527,11 @@ func advLoop2(res *Result, col *collector, tw *traceWriter, budgets []int) {
 			continue
 		}
 		got := obs.waitUntil(15*time.Second, func() bool { return len(obs.notes) > n0 })
+		if !got && lastEventAge(col) < 3*time.Second {
+			res.inconclusive("adv2: still busy after 15 s (origin, %d hops)", h)
+
+			return
+		}
 		if !settle() {
 			res.inconclusive("adv2: barrier timeout")
 
@@ -589,11 +594,17 @@ func advLoop2(res *Result, col *collector, tw *traceWriter, budgets []int) {
 			if !notice {
 				// positive wait: the notice frame for P2
 				deadline := time.Now().Add(15 * time.Second)
-				for time.Now().Before(deadline) {
+				arrived := false
+				for time.Now().Before(deadline) && !arrived {
 					if _, o := b2.snapshot(); len(o) > len(o2) {
-						break
+						arrived = true
 					}
 					time.Sleep(time.Millisecond)
+				}
+				if !arrived && lastEventAge(col) < 3*time.Second {
+					res.inconclusive("adv2: still busy after 15 s (packet from P2, TTL %d)", h)
+
+					return
 				}
 			} else if n := countNoticeSends(col) - u0 + 0; n != 0 {
 				_ = n // reported below through the frames / the trace
@@ -733,6 +744,12 @@ func advLoop3(res *Result, col *collector, tw *traceWriter, budgets []int) {
 
 		return
 	}
+	// the real nodes first: what a scripted peer announces is flooded once, so both real nodes must be connected before
+	if !r1.WaitTable(map[string]string{"R2": "R2"}, 30*time.Second) || !r2.WaitTable(map[string]string{"R1": "R1"}, 30*time.Second) {
+		res.inconclusive("adv3: the real nodes did not connect: %v / %v", r1.N.Status().RoutingTable, r2.N.Status().RoutingTable)
+
+		return
+	}
 	p, errp := r2.Attach("P")
 	qq, errq := r1.Attach("Q")
 	if errp != nil || errq != nil {
@@ -750,9 +767,19 @@ func advLoop3(res *Result, col *collector, tw *traceWriter, budgets []int) {
 
 		return
 	}
-	_ = p.SendRoute(peer.RoutingUpdate{NodeID: "g", UpdateID: "g-1", UpdateEpoch: 5, UpdateSequence: 1, Connections: map[string]float64{"P": 1}, ForwardingNode: "P"})
-	if !r1.WaitTable(map[string]string{"R2": "R2", "P": "R2", "Q": "Q", "g": "R2"}, 30*time.Second) ||
-		!r2.WaitTable(map[string]string{"R1": "R1", "P": "P", "g": "P", "Q": "R1"}, 30*time.Second) {
+	settled := false
+	for try := 1; try <= 8 && !settled; try++ {
+		// (re-)announce the scripted nodes with rising sequence numbers until both real nodes have the intended tables
+		if try > 1 {
+			_ = p.OwnUpdate(map[string]float64{"R2": 1, "g": 1})
+			_ = qq.OwnUpdate(map[string]float64{"R1": 1})
+		}
+		_ = p.SendRoute(peer.RoutingUpdate{NodeID: "g", UpdateID: fmt.Sprintf("g-%d", try), UpdateEpoch: 5, UpdateSequence: uint64(try),
+			Connections: map[string]float64{"P": 1}, ForwardingNode: "P"})
+		settled = r1.WaitTable(map[string]string{"R2": "R2", "P": "R2", "Q": "Q", "g": "R2"}, 4*time.Second) &&
+			r2.WaitTable(map[string]string{"R1": "R1", "P": "P", "g": "P", "Q": "R1"}, 4*time.Second)
+	}
+	if !settled {
 		res.inconclusive("adv3: routing tables did not settle: %v / %v", r1.N.Status().RoutingTable, r2.N.Status().RoutingTable)
 
 		return
@@ -800,17 +827,27 @@ func advLoop3(res *Result, col *collector, tw *traceWriter, budgets []int) {
 
 					continue
 				}
-				obs.waitUntil(15*time.Second, func() bool { return len(obs.notes) > n0 })
+				if !obs.waitUntil(15*time.Second, func() bool { return len(obs.notes) > n0 }) && lastEventAge(col) < 3*time.Second {
+					res.inconclusive("adv3: still busy after 15 s (origin, %d hops)", h)
+
+					return
+				}
 			} else {
 				d := &peer.Data{TTL: byte(h), FromHash: peer.Hash("Q"), ToHash: peer.Hash("g"), FromService: "qsrc", ToService: "svc", Payload: pl}
 				names.emit("h_inject", "Q", d, "at", "R1", "sha", sha8(pl))
 				_ = qq.SendRaw(peer.EncodeData(byte(h), "Q", "g", "qsrc", "svc", pl))
 				deadline := time.Now().Add(15 * time.Second)
-				for time.Now().Before(deadline) {
+				arrived := false
+				for time.Now().Before(deadline) && !arrived {
 					if _, o := bq.snapshot(); len(o) > len(oq0) {
-						break
+						arrived = true
 					}
 					time.Sleep(time.Millisecond)
+				}
+				if !arrived && lastEventAge(col) < 3*time.Second {
+					res.inconclusive("adv3: still busy after 15 s (packet from Q, TTL %d)", h)
+
+					return
 				}
 			}
 			if !settle() {
